@@ -146,6 +146,18 @@ def raw_apps(iface):
                             raise Boom("after the empty chunk")
                         yield b"late body"
                     return g3()
+                if shape == "gen_raise_before_start":
+                    def g4():
+                        raise Boom("before start, at the first step")
+                        yield b""
+                    return g4()
+                if shape in ("typeerror_before", "attributeerror_before"):
+                    raise (TypeError if shape == "typeerror_before" else AttributeError)("the application's own bug")
+                if shape == "sees_falsy":
+                    # present-but-falsy values must not be replaced by the caller's default
+                    keys = ("QUERY_STRING", "HTTP_X_EMPTY", "wsgi.multithread", "wsgi.run_once", "CONTENT_LENGTH", "HTTP_X_ZERO", "SCRIPT_NAME")
+                    seen = [f"{k}={environ.get(k, 'DEFAULT')!r}/{k in environ}" for k in keys]
+                    return [";".join(seen).encode()]
                 if shape == "sees_environ":
                     return [("ext:" + ",".join(sorted(k for k in environ if k in ("wsgi.file_wrapper", "server.feature")))).encode()]
                 if shape == "raise_after_start":
@@ -158,13 +170,15 @@ def raw_apps(iface):
             app.calls = 0
             app.closed = 0
             return app
-        return {s: (lambda s=s: mk(s)) for s in ("list", "list_caps", "cookie_ws", "restart_exc_info", "list2", "tuple", "empty", "empty_iter", "gen", "closeable", "raise_before", "raise_after_start", "raise_after_chunk", "empty_then_raise", "empty_then_body", "sees_environ")}
+        return {s: (lambda s=s: mk(s)) for s in ("list", "list_caps", "cookie_ws", "restart_exc_info", "list2", "tuple", "empty", "empty_iter", "gen", "closeable", "raise_before", "raise_after_start", "raise_after_chunk", "empty_then_raise", "empty_then_body", "sees_environ", "sees_falsy", "gen_raise_before_start", "typeerror_before", "attributeerror_before")}
 
     def amk(shape):
         async def app(scope, receive, send):
             app.calls += 1
             if shape == "raise_before":
                 raise Boom("before")
+            if shape in ("typeerror_before", "attributeerror_before"):
+                raise (TypeError if shape == "typeerror_before" else AttributeError)("the application's own bug")
             hdrs = [(b"content-type", b"text/plain"), (b"set-cookie", b"a=1"), (b"set-cookie", b"b=Jos\xe9"), (b"x-multi", b"1"), (b"x-multi", b"2")]
             if shape == "utf8_headers":  # header bytes that happen to be valid UTF-8 must come out as the same bytes
                 hdrs += [(b"x-utf8", b"r\xc3\xa9sum\xc3\xa9"), (b"set-cookie", b"u=\xc3\xa9"), (b"content-disposition", b'attachment; filename="\xe4\xb8\xad.txt"'), (b"x-sp", b" padded  value ")]
@@ -197,7 +211,7 @@ def raw_apps(iface):
         app.calls = 0
         app.closed = 0
         return app
-    return {s: (lambda s=s: amk(s)) for s in ("one", "two", "three", "nobody", "one_nokey", "two_nokey", "sees_scope", "utf8_headers", "mixed_sizes", "headers_iter", "raise_before", "raise_after_start", "raise_after_chunk")}
+    return {s: (lambda s=s: amk(s)) for s in ("one", "two", "three", "nobody", "one_nokey", "two_nokey", "sees_scope", "utf8_headers", "mixed_sizes", "headers_iter", "raise_before", "raise_after_start", "raise_after_chunk", "typeerror_before", "attributeerror_before")}
 
 
 # ------------------------------------------------------------------ wrappers
@@ -282,7 +296,7 @@ def build(iface, name, stack, tmpfile):
 
 
 def requests_menu():
-    return [("GET", [], []), ("HEAD", [], []), ("POST", [("Content-Type", "text/plain"), ("Content-Length", "4")], [b"bo", b"dy"]), ("GET", [("Range", "bytes=1-2")], []), ("GET", [("X-Ext", "1")], [])]
+    return [("GET", [], []), ("HEAD", [], []), ("POST", [("Content-Type", "text/plain"), ("Content-Length", "4")], [b"bo", b"dy"]), ("GET", [("Range", "bytes=1-2")], []), ("GET", [("X-Ext", "1")], []), ("GET", [("X-Empty", ""), ("X-Zero", "0")], [])]
 
 
 def run(iface, app, method, headers, chunks):
@@ -428,6 +442,10 @@ def run_shard(desc, tier):
                 where = f"{iface} app '{name}' under stack {'>'.join(stack)} on {method}{' ' + str(headers) if headers else ''}"
                 calls, closed = count()
                 if bare.exc is not None:
+                    if calls != 1:
+                        r.violation("inner-app-run-count", w, f"{where}: the inner application fails with {type(bare.exc).__name__}; behind the middleware it ran {calls} times")
+                    elif iface == "wsgi" and not bare.start_calls and res.start_calls:
+                        r.violation("started-although-inner-did-not", w, f"{where}: the bare app fails before it ever starts a response; wrapped, the server is handed {res.start_calls[0][0]!r} {res.start_calls[0][1]!r} and then the error")
                     if type(res.exc) is not type(bare.exc):
                         r.violation("exception-class-differs", w, f"{where}: bare app raises {type(bare.exc).__name__}, wrapped gives {res.exc!r:.100} status {res.status}")
                     else:
